@@ -242,6 +242,8 @@ func main() {
 		oracleFail     []string
 		inconclusive   []string
 		requested, ran int64
+
+		confirmedSuspects int
 	)
 	for k := 0; k < nsh; k++ {
 		data, err := os.ReadFile(outs[k])
@@ -253,9 +255,13 @@ func main() {
 		if codes[k] == 3 {
 			// watchdog: confirm the suspect in a fresh process with a larger budget
 			sp, _ := os.ReadFile(outs[k] + ".suspect")
-			if len(sp) > 0 {
+			if len(sp) > 0 && confirmedSuspects > 0 {
+				// one confirmed suspect decides the run; the others are listed, not replayed
+				inconclusive = append(inconclusive, fmt.Sprintf("shard %d hit the per-case watchdog (suspect %s not replayed: another suspect was already confirmed)", k, strings.TrimSpace(string(sp))))
+			} else if len(sp) > 0 {
 				switch verdict, detail := confirmHang(bin, filepath.Join(hdir, pkg), id, string(sp), cfg.MemKB); verdict {
 				case "hang", "crash", "fails":
+					confirmedSuspects++
 					violations = append(violations, violation{Sub: verdict, Replay: string(sp), Msg: detail})
 				default:
 					inconclusive = append(inconclusive, fmt.Sprintf("shard %d hit the per-case watchdog but the case passes when replayed alone", k))
@@ -510,9 +516,10 @@ func runShard(bin, dir, id, tier string, k, nsh int, seed uint64, out, replay st
 }
 
 func confirmHang(bin, dir, id, suspect string, memKB int64) (verdict, detail string) {
-	ctx, cancel := context.WithTimeout(context.Background(), 16*time.Minute)
+	// A case runs for milliseconds; replayed alone it gets four minutes.
+	ctx, cancel := context.WithTimeout(context.Background(), 5*time.Minute)
 	defer cancel()
-	sh := fmt.Sprintf("ulimit -v %d 2>/dev/null; exec %q -test.run '^TestCheck$' -test.timeout 15m -test.count 1", memKB, bin)
+	sh := fmt.Sprintf("ulimit -v %d 2>/dev/null; exec %q -test.run '^TestCheck$' -test.timeout 4m -test.count 1", memKB, bin)
 	cmd := exec.CommandContext(ctx, "bash", "-c", sh)
 	cmd.Dir = dir
 	cmd.Env = append(os.Environ(), "VERIF_REPLAY="+suspect, "VERIF_ROOT="+root, "VERIF_NOWATCHDOG=1", "VERIF_OUT=")
